@@ -738,7 +738,8 @@ class Interp:
                 continue
             kind0 = d.iter_kind(r.value)
             seen = set()
-            work = [(r.state, True)]
+            sh = getattr(d, "for_start", None)
+            work = [(sh(self, s, r.value, r.state, fr) if sh is not None else r.state, True)]
             exits = []
             while work:
                 cur, first = work.pop()
@@ -755,7 +756,8 @@ class Interp:
                     if hr is not None:
                         may_iter, may_done = hr
                 if may_done:
-                    exits.append(cur)
+                    dh = getattr(d, "for_done", None)
+                    exits.append(dh(self, s, r.value, cur, fr) if dh is not None else cur)
                 if may_iter:
                     el = d.element(r.value, cur, s)
                     els = el if isinstance(el, list) else [el]
@@ -884,6 +886,8 @@ class Interp:
                     v = argvals[p.arg]
                 elif p.arg in defaults and isinstance(defaults[p.arg], ast.Constant):
                     v = self.domain.constant(defaults[p.arg])
+                elif p.arg in defaults and getattr(self.domain, "default_value", None) is not None:
+                    v = self.domain.default_value(defaults[p.arg], func)
                 else:
                     v = TOP
                 s0 = s0.set(fr.local(p.arg), v)
